@@ -719,7 +719,12 @@ pub fn get_deposit(
     pool_deposit: &BigNum, // // protocol parameter
     key_deposit: &BigNum,  // protocol parameter
 ) -> Result<Coin, JsError> {
-    internal_get_deposit(&txbody.certs, &pool_deposit, &key_deposit)
+    let certs_deposit = internal_get_deposit(&txbody.certs, &pool_deposit, &key_deposit)?;
+    match &txbody.voting_proposals {
+        None => Ok(certs_deposit),
+        Some(proposals) => (0..proposals.len())
+            .try_fold(certs_deposit, |acc, i| acc.checked_add(&proposals.get(i).deposit())),
+    }
 }
 
 #[derive(Debug, Clone, Eq, Ord, PartialEq, PartialOrd)]
